@@ -380,7 +380,22 @@ func vC02RunRival(srv *vksServer, scn *vC02Scn, rec *vC02Notifier, req *http.Req
 		sched.release("w")
 	}
 	if reached {
-		st := srv.do("PUT", "/"+vksHash(block), block, vksSysToken).Code
+		// A runs while B is parked.  Should A need something B holds (B parked inside its flock section), A
+		// cannot finish: B is then set free first and the scenario counts as not applied.
+		ach := make(chan int, 1)
+		go func() { ach <- srv.do("PUT", "/"+vksHash(block), block, vksSysToken).Code }()
+		var st int
+		select {
+		case st = <-ach:
+		case <-time.After(5 * time.Second):
+			sched.freeAll()
+			<-done
+			<-ach
+			vHook.mu.Lock()
+			vHook.sched = nil
+			vHook.mu.Unlock()
+			return false
+		}
 		if st >= 200 && st < 300 {
 			log(map[string]interface{}{"ev": "rivalack", "st": st})
 		}
